@@ -57,14 +57,6 @@ Definition np_axes (nd : Z) (l : list Z) : res (list Z) := mapM (np_normalize_ax
 Definition spec_transpose (sh : shape) (f : idx -> Z) (perm : list Z) : res (shape * (idx -> Z)) :=
   if is_perm (slen sh) perm then Ok (np_transpose_shape sh perm, np_transpose perm f) else Raise ValueError.
 
-(* np.pad validates the pad_width argument itself (before broadcasting it to the axes) *)
-Definition padw_neg (pw : padw) : bool :=
-  match pw with
-  | PW0 p => p <? 0
-  | PW1 l => existsb (fun p => p <? 0) l
-  | PW2 rows => existsb (existsb (fun p => p <? 0)) rows
-  end.
-
 Definition zsum (l : list Z) : Z := fold_right Z.add 0 l.
 
 Definition run_spec (sh : shape) (fill : Z) (f : idx -> Z) (o : c08op) : res (shape * (idx -> Z)) :=
@@ -139,32 +131,6 @@ Definition dom_clause (x : coo Z) (o : c08op) : Z :=
       if negb (all_in_range nd (ax_list a)) then 0
       else if negb (length sl =? 1)%nat && (k =? 1)%nat then 21
       else 0
-    end
-  | OReshape new =>
-    if idx_eqb sh new then 0
-    else if (1 <? Z.of_nat (length (filter (fun d => d =? -1) new))) then 20
-    else 0
-  | OSqueeze a =>
-    match a with
-    | AxNone => 0
-    | _ => if negb (all_in_range nd (ax_list a)) then 0
-           else if existsb (fun d => d <? 0) (ax_list a) then 13
-           else if sdup (ax_list a) then 14 else 0
-    end
-  | OFlip a =>
-    match a with
-    | AxNone => 0
-    | _ => if negb (all_in_range nd (ax_list a)) then 0
-           else if sdup (norm_list nd (ax_list a)) then 15 else 0
-    end
-  | OMove s d =>
-    if negb (all_in_range nd (ax_list s)) || negb (all_in_range nd (ax_list d)) then 0
-    else if sdup (norm_list nd (ax_list d)) then 16 else 0
-  | OBroadcast t => if (Z.of_nat (length t) <? nd) then 17 else 0
-  | OPad pw cv =>
-    match pad_pairs (length sh) pw with
-    | Ok prs => if padw_neg pw then 18 else 0
-    | _ => 0
     end
   | _ => 0
   end.
